@@ -40,19 +40,20 @@ sys.path.insert(0, os.path.dirname(os.path.abspath(__file__)))
 # property -> list of engine module names (run in order, results merged)
 ENGINE_MODULES = {
     "C03": ["eng_tables"],
-    "C12": ["eng_brand"],
+    "C12": ["eng_brand", "eng_tables"],
     "C13": ["eng_tables"],
+    "C14": ["eng_dynroots"],
     "C15": ["eng_collect"],
     "C16": ["eng_tables", "eng_collect"],
     "C17": ["eng_layout"],
     "C18": ["eng_layout"],
     "C19": ["eng_tables"],
-    "C20": ["eng_tables"],
+    "C20": ["eng_tables", "eng_dynroots"],
 }
 
 
 # engines that have been delivered, reviewed and integrated (others are skipped even if present)
-READY = {"eng_brand", "eng_collect", "eng_layout", "eng_tables"}
+READY = {"eng_brand", "eng_collect", "eng_layout", "eng_tables", "eng_dynroots"}
 
 
 def _merge(a, b):
